@@ -421,3 +421,28 @@ def rule_R2(ctx, R):
                               a["span"]["file"], a["span"]["line"]))
     res.need(6, "key carriers")
     return res
+
+
+def rule_O3(ctx, R):
+    res = RuleResult("O3", "guards do not give back their lock: no safe function turns a hold, guard or protected-data view into a "
+                           "reference to the lock it belongs to (members of an owned collection would become lockable on their own)")
+    guardish = set(R.holdtypes) | R.key_carriers | R.hold_owners | {"poisonable::PoisonRef", "poisonable::PoisonError"}
+    n = 0
+    for f in ctx.F.fns:
+        if "inputs" not in f or f.get("unsafe") or not f.get("reachable"):
+            continue
+        takes = [t for t in f["inputs"] if any(x["k"] == "adt" and x["path"] in guardish for x in ty_walk(t))
+                 or any(x["k"] == "alias" and x.get("name") in ("Guard", "ReadGuard", "DataMut", "DataRef") for x in ty_walk(t))]
+        if not takes:
+            continue
+        n += 1
+        out = f["output"]
+        gives = [x for x in ty_walk(out) if x["k"] in ("ref", "ptr") and x["ty"]["k"] == "adt" and x["ty"]["path"] in R.lock_adts]
+        if gives:
+            res.bad(Violation("O3", f["path"], "lock-from-guard", "safe function returns %s from a guard (%s): the lock behind a guard "
+                              "becomes reachable on its own, e.g. a member of an OwnedLockCollection, which is then locked outside the "
+                              "collection's fixed order" % (gives[0]["s"], takes[0]["s"]), f["span"]["file"], f["span"]["line"]))
+        else:
+            res.ok(f["path"])
+    res.need(86, "safe functions taking guards")
+    return res
